@@ -7,6 +7,10 @@ ids = [p['id'] for p in props]
 TECH = "contract-based deductive verification: requires/ensures/invariant contracts on the real functions, verification conditions generated from go/ssa by vcgo, discharged by z3/cvc5"
 
 claimed = {
+ "C09": dict(
+   text="Proof over every Cache method (NewCache, Add, Update, Get, Push, Pop, Reset, frameOf, checkCapacity, ReservedSize, Last, Levels) that the representation invariant is preserved for all inputs: scopes are distinct maps, a symbol lives in at most one scope, every live symbol has a limit, CacheUseSize equals the summed length of all stored values (mod 2^32) and that sum never exceeds the capacity; values over their limit are rejected for every length, rejected calls change nothing, Pop/Reset release exactly the bytes of the scopes they drop. Loops (map ranges, scope scan) are cut by inductive invariants.",
+   note="Assumes capacity + value length < 2^32 (precondition). Trusted: vcgo translation, sum lemma library (split/unit/congruence instances named by `use` clauses), generator-instantiated per-map sum update lemmas, logging no-effect, solvers. Keys()/Check()/Invalidate not under contract.",
+   ref="4/C09"),
  "C14": dict(
    text="Proof that the VM encoder NewLine and the VM decoders are exact inverses for the opcode and the (up to two) symbol arguments: contracts give NewLine's output layout and each decoder's exact result, and lemma functions (real Go under the tag) that encode with the real NewLine and decode with the real opSplit/parseSym/parseTwoSym are verified for every opcode, every symbol of 1..255 bytes and every program prefix.",
    note="Reduced: integer/size/signal encoding by NewLine's byteargs and the asm writers (bytes.Buffer based) are not yet under contract; disassembler text not covered. Trusted: vcgo translation, BigEndian stub, string theory axioms (extensionality instances), solvers.",
